@@ -159,7 +159,10 @@ pub fn gen_world(seed: u64, idx: u64, s: &dyn SuiteOps, cover: usize, per_world:
         let sids = WIds { client: spell_client(&mut g, &lid_c, r.record), server: spell_server(&mut g, &lid_s, setup) };
         let cids = WIds { client: spell_client(&mut g, &lid_c, r.record), server: spell_server(&mut g, &lid_s, setup) };
         let k2 = respell_ksf(&mut g, &ksf, fam);
-        let (l, mut ops) = b.login_ops(&mut g, setup, Some(r.record), &ps, &pf, &cred, Some(ctx.clone()), Some(ctx.clone()), sids, cids, k2, false);
+        // "all contexts": now and then the client's final step is also handed a context it could
+        // not even encode; the wrong password must still be what the caller is told about
+        let cctx = if k % 8 == 5 { g.bytes(65536) } else { ctx.clone() };
+        let (l, mut ops) = b.login_ops(&mut g, setup, Some(r.record), &ps, &pf, &cred, Some(ctx.clone()), Some(cctx), sids, cids, k2, false);
         // the ServerFinish with this session's own (non-existent) finalization is dropped;
         // instead the server state is attacked with everything that exists
         ops.pop();
@@ -179,7 +182,7 @@ pub fn gen_world(seed: u64, idx: u64, s: &dyn SuiteOps, cover: usize, per_world:
 
 pub fn run(ctx: &Ctx) -> Report {
     let mut rep = Report::new(
-        "per world: one registration (password from the length/content classes incl. embedded NUL and 65535 bytes), one honest login, then near-miss logins (all single-bit flips for <=32-byte passwords / 64 sampled otherwise, drop/add first/last byte, prefixes, extensions, case flip, trailing space/newline/NUL, NUL-truncation twin, empty vs non-empty, length-prefix shapes, doubled, SHA-256/384/512 digest of the password, unrelated) applied at start only / finish only / both; every existing finalization + zero + random is fed to each failed session's server state; non-trivial = world contains at least one predicted rejection; distinct = hash of (suite, op/outcome sequence)",
+        "per world: one registration (password from the length/content classes incl. embedded NUL and 65535 bytes), one honest login, then near-miss logins (all single-bit flips for <=32-byte passwords / 64 sampled otherwise, drop/add first/last byte, prefixes, extensions, case flip, trailing space/newline/NUL, NUL-truncation twin, empty vs non-empty, length-prefix shapes, doubled, SHA-256/384/512 digest of the password, unrelated) applied at start only / finish only / both, one attempt in eight with a 65536-byte client context on top; every existing finalization + zero + random is fed to each failed session's server state; non-trivial = world contains at least one predicted rejection; distinct = hash of (suite, op/outcome sequence)",
     );
     let mut suites: Vec<&'static dyn SuiteOps> = SIM_SUITES.to_vec();
     suites.extend(ID_SUITES.iter().step_by(3));
